@@ -222,6 +222,13 @@ func b3Frames() []BatchCase {
 		BatchCase{Key: "B3/panic/in-function-last", Gate: "batch-panic-in-function", Prog: SingleFile([]Stmt{fn("f", nil, nil, pr(sl("f")), Panic{sl("in f")}), callS("f")})},
 		BatchCase{Key: "B3/panic/in-function-with-continuation", Gate: "batch-panic-in-function", Prog: SingleFile([]Stmt{fn("f", nil, nil, pr(sl("f")), Panic{sl("in f")}), callS("f"), pr(sl("never"))})},
 		BatchCase{Key: "B3/panic/in-function-in-loop", Gate: "batch-panic-in-function", Prog: SingleFile([]Stmt{fn("f", []Param{{"n", TInt}}, []Type{TInt}, forUp("i", 3, ifs(cmp("==", vr("i"), vr("n")), Panic{sl("at i")})), ret(vr("n"))), pr(call("f", il(7))), pr(call("f", il(1))), pr(sl("never"))})},
+		// the callee panics at run time while the call sits inside a block of the caller (a parenthesised block is
+		// %-expanded as a whole before it runs; the check after the call must see the value at run time)
+		BatchCase{Key: "B3/panic/callee-called-in-loop", Prog: SingleFile([]Stmt{fn("chk", []Param{{"n", TInt}}, nil, ifs(cmp(">", vr("n"), il(1)), Panic{sl("too big")}), pr(sl("ok"), vr("n"))), forUp("i", 4, callS("chk", vr("i")), pr(sl("after"), vr("i"))), pr(sl("never"))})},
+		BatchCase{Key: "B3/panic/callee-called-in-if", Prog: SingleFile([]Stmt{fn("chk", []Param{{"n", TInt}}, nil, ifs(cmp(">", vr("n"), il(1)), Panic{sl("too big")}), pr(sl("ok"), vr("n"))), def("v", il(2)), ifs(cmp("==", vr("v"), il(2)), callS("chk", il(1)), callS("chk", vr("v")), pr(sl("never in if"))), pr(sl("never"))})},
+		BatchCase{Key: "B3/panic/callee-called-in-else-and-switch", Prog: SingleFile([]Stmt{fn("chk", []Param{{"n", TInt}}, []Type{TInt}, ifs(cmp(">", vr("n"), il(1)), Panic{sl("too big")}), ret(bin("+", vr("n"), il(1)))), def("v", il(0)), If{Branches: []IfBranch{{cmp("==", vr("v"), il(5)), []Stmt{pr(sl("no"))}}}, HasElse: true, Else: []Stmt{Switch{Tag: vr("v"), Cases: []SwitchCase{{E: il(0), Body: []Stmt{set("v", call("chk", il(1))), pr(sl("v"), vr("v")), set("v", call("chk", vr("v"))), pr(sl("never in case"), vr("v"))}}}}, pr(sl("never in else"))}}, pr(sl("never"))})},
+		BatchCase{Key: "B3/panic/callee-called-in-function-block", Prog: SingleFile([]Stmt{fn("chk", []Param{{"n", TInt}}, nil, ifs(cmp(">", vr("n"), il(1)), Panic{sl("too big")})), fn("drive", nil, nil, forUp("i", 4, ifs(cmp(">=", vr("i"), il(0)), callS("chk", vr("i")), pr(sl("after"), vr("i")))), pr(sl("never in drive"))), callS("drive"), pr(sl("never"))})},
+		BatchCase{Key: "B3/panic/callee-value-in-loop-condition", Prog: SingleFile([]Stmt{fn("lim", []Param{{"n", TInt}}, []Type{TInt}, ifs(cmp(">", vr("n"), il(1)), Panic{sl("too big")}), ret(il(5))), def("i", il(0)), For{Kind: ForCond, Cond: cmp("<", vr("i"), call("lim", vr("i"))), Body: []Stmt{pr(sl("body"), vr("i")), IncDec{"i", true}}}, pr(sl("never"))})},
 		BatchCase{Key: "B3/panic/nested-functions", Gate: "batch-panic-in-function", Prog: SingleFile([]Stmt{fn("g", nil, nil, Panic{sl("deep")}), fn("f", nil, nil, callS("g"), pr(sl("never in f"))), callS("f"), pr(sl("never"))})},
 	)
 	return out
